@@ -423,7 +423,8 @@ MUST_HIT = {
             "swap.starts_on_initialized_tick_shifted": 50, "swap.starts_on_initialized_tick_unshifted": 20,
             "twohop.repackaged": 10, "twohop.repackaged.second_leg_leaves_its_first_array": 2, "twohop.repackaged.first_leg_leaves_its_first_array": 2},
     "C11": {"reward.interval_accrues": 10, "reward.zero_elapsed_time": 50, "reward.two_or_more_rewards": 50, "liq.credits_rewards": 5, "reward.swap_crosses_tick_with_rewards": 5,
-            "collect_reward.index>=1": 3},
+            "collect_reward.index>=1": 3,
+            "reward.emissions_set_with_a_day_exactly_funded": 2, "refused.emissions_one_token_short_of_a_day": 2},
     "C12": {"liq.mixed_array_encodings": 5, "liq.deinitializes_a_tick": 20, "liq.initializes_a_tick": 10},
     "C14": {"af.reference_decayed_nonzero": 3, "af.reference_reset_after_an_hour": 10, "af.reference_kept_inside_filter_period": 50, "af.reference_reset_beyond_decay": 3,
             "af.accumulator_at_maximum": 20, "af.step_spans_several_groups": 20, "af.skipped_step": 30, "af.major_swap": 10, "af.negative_tick_group": 30,
@@ -431,7 +432,7 @@ MUST_HIT = {
     "C16": {"swap.input_mint_has_transfer_fee": 30, "swap.output_mint_has_transfer_fee": 30, "liq.transfer_fee_mint": 50},
     "C17": {"twohop.exact_out": 10, "twohop.explicit_limit": 10, "twohop.mixed_direction": 10, "twohop.same_direction": 10, "twohop.leg_crosses_a_tick": 3,
             "refused.twohop_first_leg_before_trade_enabled": 5, "refused.twohop_second_leg_before_trade_enabled": 5, "refused.twohop_v1_second_leg_before_trade_enabled": 3},
-    "C20": {"swap.adaptive_fee_pool": 30, "swap.crosses_a_tick": 5, "swap.input_mint_has_transfer_fee": 10, "af.skipped_step": 10},
+    "C20": {"swap.adaptive_fee_pool": 30, "swap.crosses_a_tick": 5, "swap.input_mint_has_transfer_fee": 10, "af.skipped_step": 10, "sdk.quoted_over_six_tick_arrays": 10},
 }
 
 
